@@ -191,6 +191,7 @@ struct Shrinker {
       // layout first
       { Layout keep = proj.layout; if (proj.layout.nfiles != 1) { proj.layout.nfiles = 1; render(proj); if (!test()) { proj.layout = keep; render(proj); } } }
       { Layout keep = proj.layout; if (proj.layout.style != 0) { proj.layout.style = 0; render(proj); if (!test()) { proj.layout = keep; render(proj); } } }
+      { Layout keep = proj.layout; if (proj.layout.naming != 0) { proj.layout.naming = 0; render(proj); if (!test()) { proj.layout = keep; render(proj); } } }
       { Layout keep = proj.layout; if (proj.layout.spelling != 0) { proj.layout.spelling = 0; render(proj); if (!test()) { proj.layout = keep; render(proj); } } }
       bool progress = true;
       while (progress && evals < max_evals) {
@@ -415,7 +416,7 @@ int check_main(Config cfg) {
 
   int W = cfg.workers;
   Slot *slots = (Slot *)mmap(nullptr, sizeof(Slot) * (size_t)W, PROT_READ | PROT_WRITE, MAP_SHARED | MAP_ANONYMOUS, -1, 0);
-  struct WState { pid_t pid = -1; int fd = -1; std::string buf; bool done = false; long long last_run = -1; double last_progress = 0; };
+  struct WState { pid_t pid = -1; int fd = -1; std::string buf; bool done = false; long long last_run = -1; double last_progress = 0; bool late_reported = false; };
   std::vector<WState> ws((size_t)W);
   auto spawn = [&](int k, long long first_run) {
     int pfd[2];
@@ -532,6 +533,10 @@ int check_main(Config cfg) {
         fprintf(stderr, "[check] worker %d makes no progress in run %lld, killing it\n", k, (long long)slots[k].run);
         kill(-w.pid, SIGKILL); kill(w.pid, SIGKILL);
         w.last_progress = now_s();
+      }
+      if (w.fd >= 0 && !w.done && now_s() > deadline + 15 && !w.late_reported && slots[k].run >= 0) {
+        w.late_reported = true;
+        fprintf(stderr, "[check] worker %d is still in run %lld (sub %lld, %s) 15 s after the budget ended\n", k, (long long)slots[k].run, (long long)slots[k].sub, phase_name(slots[k].phase));
       }
       // the exploration budget is over: a worker that is still inside a run two minutes later is removed
       if (w.fd >= 0 && !w.done && now_s() > deadline + 120) {
